@@ -525,6 +525,10 @@ func checkC01(c *Ctx) {
 	c.withAlias(map[string]string{"R3": "R7", "R4": "R7", "R5": "R7"}, func() { checkQueues(c, runOwn(c)) })
 	c.Rule("R5", "no alias of the read buffer escapes into a decoded request (shared with C10.R2): a queued request is not rewritten by the next read")
 	checkReadBufferAlias(c, "R5")
+	c.Rule("R10", "however the request bytes are fragmented (shared with C10.R12): the line reader's returned line ends at (start of the searched window + index + 1)")
+	checkLineEndMatchesSearch(c, "R10")
+	c.Rule("R9", "a reply stays intact until it is written (shared with C10.R11): the slab the decoded replies are cut from hands out every byte once - its cursor only advances or takes a fresh chunk")
+	checkSlabNeverRewinds(c, "R9")
 	c.Rule("R8", "one reply per request (shared with C02.R1): every request is completed exactly once on every path - a request completed twice (answered by a filter and still queued for a backend reply) shifts every later reply of that backend connection by one")
 	reportOwn(c, runOwn(c), "R8", nil)
 	c.Expect("R8", 25)
